@@ -608,7 +608,12 @@ impl NativeFunctionCall {
     fn divide_op(&self, params: &[Rc<Value>]) -> Result<Rc<dyn RTObject>, StoryError> {
         match params[0].value {
             ValueType::Int(op1) => match params[1].value {
-                ValueType::Int(op2) => Ok(Rc::new(Value::new::<i32>(op1 / op2))),
+                ValueType::Int(op2) => match op1.checked_div(op2) {
+                    Some(v) => Ok(Rc::new(Value::new::<i32>(v))),
+                    None => Err(StoryError::InvalidStoryState(
+                        "Integer division by zero or overflow.".to_owned(),
+                    )),
+                },
                 _ => Err(StoryError::InvalidStoryState(
                     "Operation not available for type.".to_owned(),
                 )),
@@ -850,7 +855,12 @@ impl NativeFunctionCall {
     fn mod_op(&self, params: &[Rc<Value>]) -> Result<Rc<dyn RTObject>, StoryError> {
         match params[0].value {
             ValueType::Int(op1) => match params[1].value {
-                ValueType::Int(op2) => Ok(Rc::new(Value::new::<i32>(op1 % op2))),
+                ValueType::Int(op2) => match op1.checked_rem(op2) {
+                    Some(v) => Ok(Rc::new(Value::new::<i32>(v))),
+                    None => Err(StoryError::InvalidStoryState(
+                        "Integer modulo by zero or overflow.".to_owned(),
+                    )),
+                },
                 _ => Err(StoryError::InvalidStoryState(
                     "Operation not available for type.".to_owned(),
                 )),
